@@ -108,6 +108,7 @@ def prog(path, text, enclosing):
 
 PURE_HOLE = "idf(one + ilist[0] + eobj.getf())"
 QUICK_DEPTH2 = ("proc-call", "mut-read")
+THOROUGH_DEPTH3 = ("proc-call", "proc-method-builtin", "mut-read")
 
 
 def space(tier):
@@ -118,85 +119,92 @@ def space(tier):
         return [(p, EFFECTS) for p in p1] + [(p, sub) for p in p2], skipped, "depth 1 x 7 effects, depth 2 x 2 effects (call of a named procedure, read of a mutable variable)"
     p2, _ = G.paths(2)
     p3, skipped = G.paths(3, exact=True)
-    sub = [e for e in EFFECTS if e[0] in QUICK_DEPTH2]
-    return [(p, EFFECTS) for p in p2] + [(p, sub) for p in p3], skipped, "depth<=2 x 7 effects, depth 3 x 2 effects (call of a named procedure, read of a mutable variable)"
+    sub = [e for e in EFFECTS if e[0] in THOROUGH_DEPTH3]
+    return [(p, EFFECTS) for p in p2] + [(p, sub) for p in p3], skipped, "depth<=2 x 7 effects, depth 3 x 3 effects (call of a named procedure, builtin procedural method, read of a mutable variable)"
+
+
+SLAB = 1500  # contexts per compile round (bounds memory in the thorough tier)
 
 
 def run(chk):
     ctxs, inexpressible, bound = space(chk.tier)
-    # phase 1: the pure twin of every (context, enclosing block)
-    twins = [{"id": f"t{ci}_{enc}", "src": prog(path, PURE_HOLE, enc), "mode": "check"} for ci, (path, _) in enumerate(ctxs) for enc in G.ENCLOSINGS]
-    tres, retried = G.compile_robust(twins, "c22t")
     stats = {"premise_ok": 0, "no_verdict_demanded(default value)": 0, "expected_reject": 0, "expected_accept": 0}
     twin_fail = {}
-    items, cases = [], []
-    total = 0
-    for ci, (path, effs) in enumerate(ctxs):
-        for enc in G.ENCLOSINGS:
-            total += len(effs)
-            t = tres.get(f"t{ci}_{enc}")
-            if t is None:
-                chk.machinery(f"no result for twin t{ci}_{enc}")
-                continue
-            if t["status"] != "ok":
-                why = t["status"] if t["status"] != "err" else "err:" + ",".join(sorted({e["kind"] for e in t.get("errors", [])}))
-                twin_fail[why] = twin_fail.get(why, 0) + 1
-                continue
-            stats["premise_ok"] += len(effs)
-            exp = expected(path, enc)
-            if exp is None:
-                stats["no_verdict_demanded(default value)"] += len(effs)
-                continue
-            for name, eff, _pure in effs:
-                iid = f"e{ci}_{enc}_{name}"
-                src = prog(path, eff, enc)
-                items.append({"id": iid, "src": src, "mode": "check"})
-                cases.append((path, enc, name, exp, iid, src))
-    # phase 2: the effect programs
-    res, retried2 = G.compile_robust(items, "c22")
     outcomes = set()
     samples = []
-    viol_inputs = 0
     not_clean = {}
-    for path, enc, name, exp, iid, src in cases:
-        r = res.get(iid)
-        if r is None:
-            chk.machinery(f"no result for {iid}")
-            continue
-        kinds = sorted({e["kind"] for e in r.get("errors", [])})
-        if r["status"] == "err" and "HasEffect" not in kinds:
-            # rejected before the effect pass ran (e.g. a mutable element makes a set literal ill-typed): not "type-clean apart from the effect"
-            k = f"{name}@{path[-1]}:{'+'.join(kinds)}"
-            not_clean[k] = not_clean.get(k, 0) + 1
-            continue
-        stats["expected_" + exp] += 1
-        outcomes.add((exp, r["status"], tuple(kinds)))
-        ctx = f"{enc}:{'>'.join(path)}"
-        good = (r["status"] == "err" and "HasEffect" in kinds) if exp == "reject" else r["status"] == "ok"
-        if good:
-            if len(samples) < 4 and len(path) >= 2 and (exp, enc) not in [(s["expected"], s["enclosing"]) for s in samples]:
-                samples.append({"context": ">".join(path), "enclosing": enc, "effect": name, "expected": exp, "src": src, "status": r["status"], "diagnostics": kinds})
-            continue
-        viol_inputs += 1
-        inner = G.innermost_callable(path, enc)
-        if r["status"] in ("panic", "abort", "hang"):
-            what = f"compiler {r['status']} on effect `{name}` in {ctx}: {str(r.get('panic') or r.get('stderr'))[:160]}"
-        elif exp == "reject" and r["status"] == "ok":
-            what = f"effect `{name}` in {ctx} is accepted although the innermost callable around it is function-kind"
-        elif exp == "reject":
-            what = f"effect `{name}` in {ctx} (innermost callable function-kind) is rejected without a side-effect diagnostic: {kinds}"
-        else:
-            what = f"effect `{name}` in {ctx} is rejected ({kinds}) although the innermost callable around it is {inner}"
-        chk.violation(key_of(name, path, enc), {"path": list(path), "enclosing": enc, "effect": name, "expected": exp, "src": src, "twin": prog(path, PURE_HOLE, enc),
-                                                "result": {k: v for k, v in r.items() if k != "warns"}}, what)
+    viol_inputs = total = retried = n_twins = n_items = 0
+    for lo in range(0, len(ctxs), SLAB):
+        slab = ctxs[lo:lo + SLAB]
+        # phase 1: the pure twin of every (context, enclosing block)
+        twins = [{"id": f"t{lo + ci}_{enc}", "src": prog(path, PURE_HOLE, enc), "mode": "check"} for ci, (path, _) in enumerate(slab) for enc in G.ENCLOSINGS]
+        tres, r1 = G.compile_robust(twins, "c22t")
+        items, cases = [], []
+        for ci, (path, effs) in enumerate(slab):
+            for enc in G.ENCLOSINGS:
+                total += len(effs)
+                t = tres.get(f"t{lo + ci}_{enc}")
+                if t is None:
+                    chk.machinery(f"no result for twin t{lo + ci}_{enc}")
+                    continue
+                if t["status"] != "ok":
+                    why = t["status"] if t["status"] != "err" else "err:" + ",".join(sorted({e["kind"] for e in t.get("errors", [])}))
+                    twin_fail[why] = twin_fail.get(why, 0) + 1
+                    continue
+                stats["premise_ok"] += len(effs)
+                exp = expected(path, enc)
+                if exp is None:
+                    stats["no_verdict_demanded(default value)"] += len(effs)
+                    continue
+                for name, eff, _pure in effs:
+                    iid = f"e{lo + ci}_{enc}_{name}"
+                    src = prog(path, eff, enc)
+                    items.append({"id": iid, "src": src, "mode": "check"})
+                    cases.append((path, enc, name, exp, iid, src))
+        # phase 2: the effect programs
+        res, r2 = G.compile_robust(items, "c22")
+        retried += r1 + r2
+        n_twins += len(twins)
+        n_items += len(items)
+        for path, enc, name, exp, iid, src in cases:
+            r = res.get(iid)
+            if r is None:
+                chk.machinery(f"no result for {iid}")
+                continue
+            kinds = sorted({e["kind"] for e in r.get("errors", [])})
+            if r["status"] == "err" and "HasEffect" not in kinds:
+                # rejected before the effect pass ran (e.g. a mutable element makes a set literal ill-typed): not "type-clean apart from the effect"
+                k = f"{name}@{path[-1]}:{'+'.join(kinds)}"
+                not_clean[k] = not_clean.get(k, 0) + 1
+                continue
+            stats["expected_" + exp] += 1
+            outcomes.add((exp, r["status"], tuple(kinds)))
+            ctx = f"{enc}:{'>'.join(path)}"
+            good = (r["status"] == "err" and "HasEffect" in kinds) if exp == "reject" else r["status"] == "ok"
+            if good:
+                if len(samples) < 4 and len(path) >= 2 and (exp, enc) not in [(s["expected"], s["enclosing"]) for s in samples]:
+                    samples.append({"context": ">".join(path), "enclosing": enc, "effect": name, "expected": exp, "src": src, "status": r["status"], "diagnostics": kinds})
+                continue
+            viol_inputs += 1
+            inner = G.innermost_callable(path, enc)
+            if r["status"] in ("panic", "abort", "hang"):
+                what = f"compiler {r['status']} on effect `{name}` in {ctx}: {str(r.get('panic') or r.get('stderr'))[:160]}"
+            elif exp == "reject" and r["status"] == "ok":
+                what = f"effect `{name}` in {ctx} is accepted although the innermost callable around it is function-kind"
+            elif exp == "reject":
+                what = f"effect `{name}` in {ctx} (innermost callable function-kind) is rejected without a side-effect diagnostic: {kinds}"
+            else:
+                what = f"effect `{name}` in {ctx} is rejected ({kinds}) although the innermost callable around it is {inner}"
+            chk.violation(key_of(name, path, enc), {"path": list(path), "enclosing": enc, "effect": name, "expected": exp, "src": src, "twin": prog(path, PURE_HOLE, enc),
+                                                    "result": {k: v for k, v in r.items() if k != "warns"}}, what)
     chk.coverage.update({
-        "evaluations": len(twins) + len(items),
+        "evaluations": n_twins + n_items,
         "distinct_nontrivial": len(outcomes),
         "rule": f"contexts of py/ctxgram.py (34 constructors) nested to {bound}; effects: call of a named procedure / of a procedural lambda, procedural method of a builtin "
                 "mutable object / of a user class, read of an outer mutable variable directly / by index / as an argument; enclosing block: module, function body, procedure body; "
                 f"an effect program is compiled when the pure twin (`{PURE_HOLE}` in the hole) of its (context, enclosing block) is accepted; "
                 "distinct = distinct (expected verdict, status, diagnostic kinds)",
-        "samples": samples or [{"src": cases[0][5]}],
+        "samples": samples or [{"src": prog(ctxs[0][0], EFFECTS[0][1], "func")}],
         "exhaustive": True,
         "bound": bound,
         "contexts": len(ctxs),
@@ -208,11 +216,11 @@ def run(chk):
         "effect_programs_not_type_clean(discarded)": sum(not_clean.values()),
         "not_type_clean_by_effect@innermost_constructor": not_clean,
         "outcomes": sorted(f"{e}:{s}:{'+'.join(k)}" for e, s, k in outcomes),
-        "recompiled_alone_after_hang_or_abort": retried + retried2,
+        "recompiled_alone_after_hang_or_abort": retried,
         **stats,
     })
-    if sum(not_clean.values()) > 0.1 * max(len(cases), 1):
-        chk.machinery(f"{sum(not_clean.values())}/{len(cases)} effect programs are rejected before the effect pass: the grammar is not type-clean")
+    if sum(not_clean.values()) > 0.1 * max(n_items, 1):
+        chk.machinery(f"{sum(not_clean.values())}/{n_items} effect programs are rejected before the effect pass: the grammar is not type-clean")
     if stats["premise_ok"] < 0.4 * total or not stats["expected_reject"] or not stats["expected_accept"]:
         chk.machinery(f"premise satisfied by {stats['premise_ok']}/{total}, expected rejects {stats['expected_reject']}, accepts {stats['expected_accept']}: vacuous")
     chk.assumptions += [
